@@ -1,10 +1,12 @@
 (* C17 - Archetype bookkeeping stays consistent at every quiescent point.  (partial)
    The property's list is evaluated directly on the implementation's snapshot after every
    top-level call by the check (independent audit) and the snapshot is compared with the model
-   state field by field.  Proved on the model: the storage/graph invariant WInv holds in every
-   world reachable through the top-level calls other than remove_component, for every handler
+   state field by field.  Proved on the model: the storage / graph / registry invariant FInv
+   holds in every world reachable through ALL top-level calls of the driver, for every handler
    behaviour (last theorem); cached transitions after a type removal (the part that was false on
-   the pinned tree); the listener-table characterisation. *)
+   the pinned tree); the listener-table characterisation.  Not covered by FInv: the per-archetype
+   listener tables and "no reservation or queued event left pending" (decided by the audit and
+   the correspondence on every run). *)
 From Coq Require Import List NArith Bool.
 Require Import EV.Base EV.Access EV.HList EV.World EV.ArchProofs.
 
@@ -88,3 +90,17 @@ Theorem c17_every_reachable_world_is_consistent :
     RInv (fold_left (run_top beh) ops (world0 fuel p)).
 Proof. exact reachable_RInv. Qed.
 Print Assumptions c17_every_reachable_world_is_consistent.
+
+Require Import EV.RemoveComp EV.Member.
+
+(* the full statement, now including World::remove_component:
+     FInv w = RInv w (above)
+           /\ KInv w : member_of of every live component lists, without repetition, exactly the live
+                       archetypes that have it; archetypes mention live components only; every targeted
+                       Insert/Remove event is about a live component and recorded in its event lists;
+                       the by-type map names live components carrying that type *)
+Theorem c17_every_reachable_world_is_consistent_all_calls :
+  forall (beh : hinfo -> logent -> N -> script) (fuel p : N) (ops : list top_all),
+    FInv (fold_left (run_top_all beh) ops (world0 fuel p)).
+Proof. exact reachable_FInv. Qed.
+Print Assumptions c17_every_reachable_world_is_consistent_all_calls.
